@@ -9,22 +9,26 @@ open YaegiVerif.RunId
 /-- the source choices the proofs rely on (every field is a decidable statement about the fact record) -/
 structure Sound (F : RunIdFacts) : Prop where
   call : F.callId = .parent
-  wrapper : F.wrapperId = .parent ∨ F.wrapperId = .root
-  closure : F.closureId = .parent ∨ F.closureId = .root
+  wrapper : F.wrapperId = .parent ∨ F.wrapperId = .epoch
+  closure : F.closureId = .parent ∨ F.closureId = .epoch
   entry : F.entryId = .parent
   guard : F.guardPlain = true
   bumps : F.stopBumps = true
   closes : F.stopCloses = true
   wstops : F.watcherStops = true
   werr : F.watcherCtxErr = true
+  marks : F.stopMarksEpochs = true
+  plumbing : F.epochPlumbing = true
+  noret : F.execRefreshAtReturn = false
 
-theorem Sound.site {F : RunIdFacts} (h : Sound F) (s : Site) : F.site s = .parent ∨ F.site s = .root := by
-  cases s <;> simp [RunIdFacts.site, h.call, h.wrapper, h.closure]
+theorem Sound.site {F : RunIdFacts} (h : Sound F) (s : Site) : F.site s = .parent ∨ F.site s = .epoch := by
+  obtain ⟨k, e, l⟩ := s
+  cases k <;> simp [RunIdFacts.site, h.call, h.wrapper, h.closure]
 
 /-- a frame made at a sound site from ids that are at most `c` has an id at most `c` -/
-theorem newId_le {F : RunIdFacts} (hF : Sound F) (s : Site) {p c r : Nat} (hp : p ≤ c) (hr : r ≤ c) :
-    newId (F.site s) p c r ≤ c := by
-  rcases hF.site s with h | h <;> simp [h, newId, hp, hr]
+theorem newId_le {F : RunIdFacts} (hF : Sound F) (s : Site) {p c r : Nat} (dead : Bool) (hp : p ≤ c) :
+    newId (F.site s) p c r dead ≤ c := by
+  rcases hF.site s with h | h <;> cases dead <;> simp [h, newId, hp]
 
 /-- every frame of the goroutine, and the frame that started it if it has not made its own yet, carries an id ≤ `c` -/
 def LeId (c : Nat) (g : G) : Prop := (∀ fr ∈ g.stack, fr.id ≤ c) ∧ (∀ pd, g.pending = some pd → pd.pid ≤ c)
@@ -36,8 +40,8 @@ theorem execOp_le {F : RunIdFacts} (hF : Sound F) (σ : St) (g : G) (hr : σ.roo
   cases stack with
   | nil => exact ⟨⟨fun fr hfr => by simp [execOp] at hfr, hp⟩, fun s hs' => by simp [execOp] at hs', rfl⟩
   | cons fr rest =>
-    obtain ⟨fid, pc, fcur⟩ := fr
-    have hfr : fid ≤ σ.id := hs ⟨fid, pc, fcur⟩ (by simp)
+    obtain ⟨fid, pc, fcur, fearly⟩ := fr
+    have hfr : fid ≤ σ.id := hs ⟨fid, pc, fcur, fearly⟩ (by simp)
     have hrest : ∀ x ∈ rest, x.id ≤ σ.id := fun x hx => hs x (by simp [hx])
     cases pc with
     | done => exact ⟨⟨fun x hx => hs x (by simpa [execOp] using hx), hp⟩, fun s hs' => by simp [execOp] at hs', rfl⟩
@@ -63,7 +67,7 @@ theorem execOp_le {F : RunIdFacts} (hF : Sound F) (σ : St) (g : G) (hr : σ.roo
       refine ⟨⟨?_, hp⟩, fun s hs' => by simp [execOp] at hs', rfl⟩
       intro x hx; simp only [execOp, List.mem_cons] at hx
       rcases hx with rfl | rfl | hx
-      · exact newId_le hF s hfr hr
+      · exact newId_le hF s _ hfr
       · exact hfr
       · exact hrest x hx
     | spawn ss body p =>
@@ -103,7 +107,7 @@ theorem advance_le {F : RunIdFacts} (hF : Sound F) (σ : St) (g : G) (hroot : σ
     intro fr hfr
     simp only [advance, List.mem_cons, List.not_mem_nil, or_false] at hfr
     subst hfr
-    exact newId_le hF pd.site (hp pd rfl) hroot
+    exact newId_le hF pd.site _ (hp pd rfl)
   | none =>
     cases stack with
     | nil =>
@@ -124,7 +128,7 @@ theorem advance_le {F : RunIdFacts} (hF : Sound F) (σ : St) (g : G) (hroot : σ
             · simp [he, hroot]
             · simp [he, hF.entry, newId, hroot]
     | cons fr rest =>
-      obtain ⟨fid, pc, fcur⟩ := fr
+      obtain ⟨fid, pc, fcur, fearly⟩ := fr
       have hrest : ∀ x ∈ rest, x.id ≤ σ.id := fun x hx => hs x (by simp [hx])
       by_cases hg : guardOk F fid σ.id = true <;> cases pc <;>
         refine ⟨⟨?_, by simp [advance, hg]⟩, by simp [advance, hg], by simp [advance, hg]⟩ <;>
@@ -282,7 +286,7 @@ theorem execOp_main (F : RunIdFacts) (σ : St) (g : G) :
   cases stack with
   | nil => simp [execOp]
   | cons fr rest =>
-    obtain ⟨fid, pc, fcur⟩ := fr
+    obtain ⟨fid, pc, fcur, fearly⟩ := fr
     cases pc <;> simp [execOp, newG]
 
 theorem advance_main (F : RunIdFacts) (σ : St) (g : G) :
@@ -300,7 +304,7 @@ theorem advance_main (F : RunIdFacts) (σ : St) (g : G) :
         | nil => simp [advance, hl]
         | cons e es => by_cases hx : (F.execChecksCancel && σ.done) = true <;> simp [advance, hl, hx]
     | cons fr rest =>
-      obtain ⟨fid, pc, fcur⟩ := fr
+      obtain ⟨fid, pc, fcur, fearly⟩ := fr
       by_cases hg : guardOk F fid σ.id = true <;> cases pc <;> simp [advance, hg]
 
 theorem stepG_main (F : RunIdFacts) (σ : St) (g : G) :
